@@ -62,8 +62,31 @@ def seq_histories(draw, tier):
             "exc": draw(st.sampled_from(sorted(GETTER_ERRORS))), "aw_value": draw(st.sampled_from([False, False, True])),
             # "small": the getter returns plain numbers that are EQUAL to True / False / each other (1, 1.0, 0, -0.0):
             # awaiters must get the very object the getter returned
-            "small_value": draw(st.sampled_from([False, False, True])),
+            "small_value": draw(st.sampled_from([False, False, True, "nocompare"])),
+            "falsy_instance": draw(st.sampled_from([False, False, True])),
             "subclass": draw(st.booleans()), "frozen": draw(st.sampled_from([False, False, True]))}
+
+
+class _NoCompare:
+    """a value that cannot be compared (an array, a query expression): ``==`` / ``!=`` raise"""
+
+    def __init__(self, n):
+        self.n = n
+
+    def __eq__(self, other):
+        raise ValueError("the truth value of a comparison with this value is ambiguous")
+
+    __ne__ = __eq__
+    __hash__ = None
+
+    def __repr__(self):
+        return f"<not comparable #{self.n}>"
+
+
+def _falsify(cls):
+    """instances are falsy (a sized container that is empty): an instance all the same"""
+    cls.__len__ = lambda self: 0
+    return cls
 
 
 def _small(n):
@@ -85,7 +108,9 @@ def make_class(ctx, runs, case, fail_flags):
                 rec[1] = "failed"
                 raise GETTER_ERRORS[case.get("exc", "ValueError")]("planned getter failure")
             value = ["value", self.tag, len(runs)]
-            if case.get("small_value"):
+            if case.get("small_value") == "nocompare":
+                value = _NoCompare(len(runs))
+            elif case.get("small_value"):
                 value = _small(len(runs))
             elif case.get("aw_value"):
                 # the cached VALUE is itself awaitable (a job handle, a future): it is data, nobody awaits it
@@ -105,6 +130,8 @@ def make_class(ctx, runs, case, fail_flags):
         class Holder:
             prop = a.cached_property(getter)
     Holder.prop.__set_name__(Holder, "prop")
+    if case.get("falsy_instance"):
+        _falsify(Holder)
     if case.get("frozen"):
         # instances that refuse attribute assignment (like a frozen dataclass): a cached property keeps its value
         # in the instance __dict__ and never goes through __setattr__
@@ -257,7 +284,8 @@ def conc_configs(draw, tier):
             "susp": draw(st.integers(1, 2)),
             "deleter": draw(st.one_of(st.none(), st.integers(0, 3))),
             "fail_run": draw(st.one_of(st.none(), st.none(), st.integers(1, 2))),
-            "small_value": draw(st.sampled_from([False, False, True])),
+            "small_value": draw(st.sampled_from([False, False, True, "nocompare"])),
+            "falsy_instance": draw(st.sampled_from([False, False, True])),
             "cancel": list(cancel) if cancel else None, "exc": draw(st.sampled_from(sorted(GETTER_ERRORS))),
             "choices": draw(st.lists(st.integers(0, 4), max_size=40))}
 
@@ -287,7 +315,8 @@ def run_conc(case, choices=None, default="rr"):
                 rec[0] = "failed"
                 rec[1] = GETTER_ERRORS[case.get("exc", "ValueError")]("planned getter failure")
                 raise rec[1]
-            value = ["value", n] if not case.get("small_value") else _small(n)
+            value = ["value", n] if not case.get("small_value") else \
+                (_NoCompare(n) if case["small_value"] == "nocompare" else _small(n))
             rec[0], rec[1] = "returned", value
             return value
         except BaseException:  # noqa: B902
@@ -305,6 +334,8 @@ def run_conc(case, choices=None, default="rr"):
         class Holder:
             prop = a.cached_property(getter)
     Holder.prop.__set_name__(Holder, "prop")
+    if case.get("falsy_instance"):
+        _falsify(Holder)
     obj = Holder()
     waiting = [0]
     seen_failures = []
